@@ -269,7 +269,34 @@ def compiled_part(chk: Check, model, cv: CompiledView):
     r = cv.run_supervisor
     fi = model.func("graph.Graph.run_supervisor")
     chk.used(fi.qualname)
-    us = [e for e in r.events if e.kind == "call" and e.name.startswith("<closure") or (e.kind == "call" and "update_state" in e.name)]
+    from ..compiled import skip_condition
+    us = [e for e in r.events if e.kind == "call" and len(e.args) == 5 and ("update_state" in e.name or e.name.startswith("<"))]
+    conds = [e for e in r.events if e.kind == "call" and e.name == "jax.lax.cond"]
+    if len(us) == 1 and len(conds) == 1:
+        skip = skip_condition(conds[0].term)
+        rec_arg = us[0].args[4]
+        no_rec = T.eq(T.mk_call("graph_state.aux.get", [T.const("record"), T.NONE]), T.NONE, numeric=False)
+        def _not_none(t):
+            # a value read out of the record (tree_take(...)) is not None
+            for _ in range(3):
+                cs = [x for x in T.walk(t) if x[0] == "eq" and T.NONE in x[1] and any(y[0] == "call" and T.call_name(y) == "rex.jax_utils.tree_take" for y in x[1])]
+                if not cs:
+                    break
+                for c in cs:
+                    t = T.assume(t, c, False)
+            return t
+        skipped = _not_none(T.assume(T.assume(rec_arg, skip, True), no_rec, False))
+        # a skipped supervisor step (before the first partition) writes back the row it read from the record: never-executed rows stay -1
+        ok = skipped[0] == "call" and T.call_name(skipped) == "rex.jax_utils.tree_take" and mentions(skipped[2][0], "steps") and any(x == T.const("record") for x in T.walk(skipped[2][0])) and not mentions(skipped, "buffer")
+        chk.add("C13.rows", "skipped supervisor step writes back the record row it read", ok, f"for a skipped supervisor step the recorded output is {T.show(skipped)[:200]}, expected the row read from the "
+                "record (the buffered output would mark a never-executed row as executed)", chk.loc(fi, us[0].node))
+        ran = T.assume(_not_none(T.assume(T.assume(rec_arg, skip, False), no_rec, False)), T.mk_and([T.eq(S("step_state"), T.NONE, numeric=False), T.eq(S("output"), T.NONE, numeric=False)]), True)
+        out_arg = T.assume(T.assume(us[0].args[3], skip, False), T.mk_and([T.eq(S("step_state"), T.NONE, numeric=False), T.eq(S("output"), T.NONE, numeric=False)]), True)
+        chk.add("C13.origin", "executed supervisor step records the output it produced", ran == out_arg and mentions(ran, "step"), f"recorded output = {T.show(ran)[:160]}, output handed on = {T.show(out_arg)[:160]}", chk.loc(fi, us[0].node))
+        off = T.assume(rec_arg, no_rec, True)
+        chk.add("C13.noninterference", "no record -> no output record", off == T.NONE, f"without a record the output record is {T.show(off)[:120]}", chk.loc(fi, us[0].node))
+    else:
+        chk.unknown("C13.rows", "supervisor output record", f"expected one update_state call and one lax.cond in run_supervisor, found {len(us)}/{len(conds)}", chk.loc(fi))
     # ---------------------------------------------------------------- init_record: -1 everywhere
     fi = model.func("graph.Graph.init_record")
     chk.used(fi.qualname)
